@@ -14,6 +14,10 @@ Streams
               must equal the implementation's;
           (B) Spec_C41.spec_outcome_ok (in Coq) and the same oracle in Python, directly on what
               the implementation did: every item handled exactly once, every result returned.
+          kind "regen": the functor is the real operations.regen.regen_iter, driven through
+          regen_repository on a long-lived fake repo; per package the helper succeeds, raises an
+          ordinary exception (-> exactly one result (pkg, that exception)), a MetadataException
+          (-> nothing) or an ignored one (RuntimeError -> the worker dies; KeyboardInterrupt -> it stops)
   par     number of worker threads created for (len, threads) sweeps  vs Model_C41.parallelism
 """
 
@@ -201,6 +205,50 @@ def make_functor(case, rec, idmap):
     return functor
 
 
+class RegenPkg:
+    """a package object handed to regen_repository"""
+
+    def __init__(self, n):
+        self.n, self.cpvstr, self.keywords = n, f"cat/pkg-{n}", ()
+
+    def __repr__(self):
+        return f"<pkg {self.n}>"
+
+
+class RegenBoom(Exception):
+    pass
+
+
+REGEN_EXC = (ValueError, KeyError, OSError, RegenBoom, ZeroDivisionError)
+_REGEN_PKGS = {}
+
+
+class RegenRepo:
+    """long-lived fake repository: the same object serves every regen call of a run, so state kept
+    across calls (in the repo, the module or the functor) is exercised too"""
+
+    def __init__(self):
+        self.current = None
+        self.helpers_made = 0
+
+    def _regen_operation_helper(self, **kw):
+        self.helpers_made += 1
+        return self.current
+
+
+_REGEN_REPO = RegenRepo()
+
+
+def regen_tab(behav, items):
+    """per-item outcome of the real regen_iter in the model's terms: only an ordinary exception
+    yields a result, (pkg, exception), encoded pkg*1000 + the failing package's id"""
+    tab = {}
+    for x in set(items):
+        b = behav.get(x, "ok")
+        tab[x] = [x * 1000 + x] if b == "exc" else ("die" if b in ("runtime", "kbd") else [])
+    return tab
+
+
 def run_case(case):
     """Run map_async once and turn the recorded events into LTS labels.
 
@@ -212,7 +260,14 @@ def run_case(case):
     rec = Recorder()
     qmod, tmod = make_shims(rec)
     items = case["items"]
-    objs, idmap = case_objects(case)
+    regen = case.get("driver") == "regen"
+    if regen:
+        for i in set(items):
+            _REGEN_PKGS.setdefault(i, RegenPkg(i))        # package objects live across calls too
+        objs = [_REGEN_PKGS[i] for i in items]
+        idmap = {id(_REGEN_PKGS[i]): i for i in set(items)}
+    else:
+        objs, idmap = case_objects(case)
     if case["shape"] == "list":
         iterable = list(objs)
     elif case["shape"] == "tuple":
@@ -221,15 +276,53 @@ def run_case(case):
         iterable = NoLen(objs, case["raises"])
     else:
         iterable = WithLen(objs, case["raises"], case["len"])
-    functor = make_functor(case, rec, idmap)
     kw = {}
     if case["threads"] is not None:
         kw["threads"] = case["threads"]
     box = {}
+    if regen:
+        from pkgcore.operations import regen as regen_mod
+        from pkgcore.package.errors import MetadataException
+        behav, delays = case["behav"], case["delays"]
+
+        def regen_func(pkg):
+            x = idmap.get(id(pkg), UNK)
+            d = delays.get(x, (0, 0))
+            pause(d[0])
+            rec.ev.append(("proc", threading.get_ident(), x))
+            pause(d[1])
+            b = behav.get(x, "ok")
+            if b == "exc":
+                e = REGEN_EXC[x % len(REGEN_EXC)](f"regen of {x} failed")
+                e.tag = x
+                raise e
+            if b == "meta":
+                raise MetadataException(pkg, "keywords", "bad")
+            if b == "runtime":
+                raise RuntimeError("in IGNORED_EXCEPTIONS: re-raised by regen_iter")
+            if b == "kbd":
+                raise KeyboardInterrupt()
+
+        _REGEN_REPO.current = regen_func
+
+        def encode(r):
+            try:
+                pkg, e = r
+                return idmap.get(id(pkg), UNK) * 1000 + int(getattr(e, "tag", 999))
+            except Exception:  # noqa: BLE001
+                return UNK
+
+        def invoke():
+            return [encode(r) for r in regen_mod.regen_repository(_REGEN_REPO, iterable, None, **kw)]
+    else:
+        functor = make_functor(case, rec, idmap)
+
+        def invoke():
+            return list(thread_pool.map_async(iterable, functor, **kw))
 
     def call():
         try:
-            box["ret"] = list(thread_pool.map_async(iterable, functor, **kw))
+            box["ret"] = invoke()
         except IterBoom:
             box["exc"] = "IterBoom"
         except BaseException as e:  # noqa: BLE001
@@ -495,8 +588,48 @@ def gen_case(rng, big, kind):
                     spec[i] = cand[0]
         case["objspec"] = spec
         case["threads"] = rng.choice([1, 1, 2, 2, 3, None])
-    case["delays"] = {x: (rng.choice([0, 0, 1, 1, 2, 3]), rng.choice([0, 0, 1, 2, 3])) for x in set(items)}
+    elif kind == "regen":
+        # the real worker functor of metadata regeneration, through regen_repository: an error
+        # path (ordinary / Metadata / ignored exceptions) and further packages on the same worker
+        n = rng.choice([2, 3, 4, 5, 6, 8, 10] + ([16, 24] if big else []))
+        items = list(range(1, n + 1))
+        rng.shuffle(items)
+        if rng.random() < 0.25:
+            items += rng.sample(items, min(2, n))            # a package listed twice
+        behav = {}
+        for x in set(items):
+            r = rng.random()
+            behav[x] = ("ok" if r < 0.45 else "exc" if r < 0.75 else "meta" if r < 0.9
+                        else "runtime" if r < 0.96 else "kbd")
+        if rng.random() < 0.5:                               # an early ordinary failure
+            behav[items[0]] = "exc"
+        case.update(items=items, driver="regen", behav=behav, mode="gen", tab=regen_tab(behav, items),
+                    threads=rng.choice([1, 1, 1, 2, 2, 3, 4]), shape=rng.choice(["list", "list", "nolen"]))
+    case["delays"] = {x: (rng.choice([0, 0, 1, 1, 2, 3]), rng.choice([0, 0, 1, 2, 3])) for x in set(case["items"])}
     return case
+
+
+def load_corpus():
+    """fixed cases that run first: corpus/C41/*.json, each a list of case dicts"""
+    import json
+    from .common import VERIF
+    out = []
+    for f in sorted((VERIF / "corpus" / "C41").glob("*.json")):
+        for c in json.loads(f.read_text()):
+            for k in ("tab", "behav", "objspec"):
+                if k in c:
+                    c[k] = {int(a): b for a, b in c[k].items()}
+            c.setdefault("raises", False)
+            c.setdefault("len", None)
+            c.setdefault("mode", "gen")
+            c.setdefault("shape", "list")
+            c["delays"] = {}
+            if c.get("driver") == "regen":
+                c["tab"] = regen_tab(c["behav"], c["items"])
+            else:
+                c.setdefault("tab", {x: [100 + x] for x in c["items"]})
+            out.append(("corpus", c))
+    return out
 
 
 def main(chk: Check):
@@ -506,6 +639,8 @@ def main(chk: Check):
     chk.rule("random item lists (0..10 items, quick; up to 30 thorough; with and without duplicates), "
              "threads in {None,1..12} and {0,-1,-3}, list/tuple/length-less/lying-len/raising iterables, "
              "items that are None / 0 / '' / False / () / equal-but-distinct and repeated objects, "
+             "the real regen_iter driven through regen_repository on one long-lived repo with packages "
+             "whose regeneration succeeds / raises an ordinary, a Metadata or an ignored exception, "
              "generator / value-returning / None-returning functors whose body sleeps or spins at "
              "generator-chosen points, poison items that make the functor raise; every call runs real "
              "threads under sys.setswitchinterval(1e-6); non-trivial = a call with >=2 workers and >=2 "
@@ -519,7 +654,7 @@ def main(chk: Check):
     rng = chk.rng
 
     plan = ([("plain", chk.n(150, 900)), ("die", chk.n(50, 300)), ("raise", chk.n(36, 200)),
-             ("nothreads", chk.n(12, 60)), ("lyinglen", chk.n(16, 60)), ("odd", chk.n(40, 300))])
+             ("nothreads", chk.n(12, 60)), ("lyinglen", chk.n(16, 60)), ("odd", chk.n(40, 300)), ("regen", chk.n(70, 500))])
     cases = []
     for kind, n in plan:
         for _ in range(n):
@@ -543,7 +678,7 @@ def main(chk: Check):
                                               "threads": threads, "shape": shape, "raises": False, "len": None,
                                               "delays": {}, "objspec": spec}))
     rng.shuffle(cases)          # every kind early (the quick tier may stop on a wall-clock limit)
-    cases = corner + cases
+    cases = load_corpus() + corner + cases
 
     old_si = sys.getswitchinterval()
     old_hook = threading.excepthook
@@ -580,6 +715,15 @@ def main(chk: Check):
                 if run["nthreads"] >= 2 and len(case["items"]) >= 2 and switches >= 2:
                     chk.nontrivial((tuple(case["items"]), case["threads"], case["mode"], case["shape"],
                                     tuple(c_label(l) for l in tr)))
+                if case.get("driver") == "regen":
+                    failed_on = set()
+                    for l in tr:
+                        if l[0] == "LProc":
+                            if l[1] in failed_on:
+                                chk.cov["regen_more_after_failure"] = chk.cov.get("regen_more_after_failure", 0) + 1
+                                break
+                            if case["behav"].get(l[2]) in ("exc", "meta"):
+                                failed_on.add(l[1])
                 if kind in ("odd", "corner-odd") and "None" in (case.get("objspec") or {}).values():
                     chk.cov["cases_with_None_item"] = chk.cov.get("cases_with_None_item", 0) + 1
                 if run["exc"] == "IterBoom":
@@ -697,6 +841,7 @@ def replay(chk, data):
         return
     case["tab"] = {int(k): v for k, v in case["tab"].items()}
     case["objspec"] = {int(k): v for k, v in (case.get("objspec") or {}).items()}
+    case["behav"] = {int(k): v for k, v in (case.get("behav") or {}).items()}
     case.pop("item_objects", None)
     case["delays"] = {}
     sys.setswitchinterval(1e-6)
